@@ -13,7 +13,8 @@ RULE = ("class chains and well-formed call shapes of C01; for each, the complete
         "Exception branch (args of auto_exc classes), definition histories (decoy, sibling and warm-up classes; decorator "
         "objects, and_() validator composites and attr.ib() objects shared between fields and classes and decorated further "
         "with `@x.validator` by one of them), `@x.validator` / `@x.default` spellings, argument objects with unusual special "
-        "methods, hostile-but-valid callable objects as factory / converter / validator (falsy callables also as THE validator of a field: "
+        "methods, per-field on_setattr hooks that are falsy / empty-container callable objects (hook_odd; a hook is a hook whatever its "
+        "truth value), converters bound through keyword defaults sharing one code object (conv_bind), hostile-but-valid callable objects as factory / converter / validator (falsy callables also as THE validator of a field: "
         "attrs judged a validator by truthiness and never ran such an object -- K02a, repaired; corpus/C02/falsy-validator-*), post-init hooks that re-store init fields as new equal objects or "
         "call BaseException.__init__ themselves, with `args` compared AFTER construction element by element against the objects "
         "the fields hold (`not-stored:` marks a stale element), multiple inheritance with a plain mixin, equal-comparing twin chains; converter CHAINS (list / pipe of 2-3 "
